@@ -3,6 +3,7 @@ import FinProtoc.Visit
 import FinProtoc.Generated.Facts
 import FinProtoc.Dsl.Parser
 import FinProtoc.Proofs.VisitRefine
+import FinProtoc.Proofs.VisitRefine2
 /-!
 # C08 — generated code depends on meaning, not spelling
 
@@ -119,7 +120,8 @@ visitor strips the quotes (`strings.Trim`), `specOf` did not and fell back to th
 too (`optValueText`).  A checksum field with a written type that is also named after a MetaData entry took the entry's type
 in the visitor and the written one in `specOf` - the written type now wins in the Go code and in `Visit.metaTypeOf`.)
 
-Not covered yet: length fields, packet-typed fields, match fields, inline objects, RefMetaData entries. -/
+Not covered yet: length fields, packet-typed fields, match fields, inline objects, prefix `@calculatedFrom` / `@lengthOf`
+attributes.  RefMetaData entries: `visit_refines_spec_refs_partial`. -/
 
 open FinProtoc.Visit in
 /-- **Refinement (flat fragment).**  If the file is a well-formed file of the flat fragment and satisfies the side conditions,
@@ -151,6 +153,27 @@ theorem same_spec_same_schema (c c' : Cst) (h : WFFlat c) (ha : Agree c) (h' : W
     (he : specOf c = specOf c') (s s' : VState) (hr : Visit.run c = .ok s) (hr' : Visit.run c' = .ok s') :
     schemaOf s = schemaOf s' := by
   rw [visit_refines_spec_partial c h ha s hr, visit_refines_spec_partial c' h' ha' s' hr', he]
+
+open FinProtoc.Visit in
+/-- **Refinement (flat fragment with MetaData reference entries, `WFRefs`).**  A reference entry `Type name` makes the visitor
+register `name` with THE attribute object of `Type` (for a `zchar[n]` also its NUL pad cell); the declarative reading gives
+`name` the declared type of `Type`: the two agree, under the same side conditions `Agree` as on the flat fragment. -/
+theorem visit_refines_spec_refs_partial (c : Cst) (h : WFRefs c) (ha : Agree c) (s : VState) (hr : Visit.run c = .ok s) :
+    schemaOf s = specOf c :=
+  (visit_refines_spec_refs c h ha s hr).1
+
+open FinProtoc.Visit in
+/-- … and the declarative reading is defined there. -/
+theorem spec_defined_refs_partial (c : Cst) (h : WFRefs c) (ha : Agree c) : (specOf c).isSome = true := by
+  obtain ⟨s, hs⟩ := Visit.run_ok c
+  exact (visit_refines_spec_refs c h ha s hs).2
+
+open FinProtoc.Visit in
+/-- spelling does not reach the visitor's meaning, on `WFRefs` -/
+theorem same_spec_same_schema_refs (c c' : Cst) (h : WFRefs c) (ha : Agree c) (h' : WFRefs c') (ha' : Agree c')
+    (he : specOf c = specOf c') (s s' : VState) (hr : Visit.run c = .ok s) (hr' : Visit.run c' = .ok s') :
+    schemaOf s = schemaOf s' := by
+  rw [visit_refines_spec_refs_partial c h ha s hr, visit_refines_spec_refs_partial c' h' ha' s' hr', he]
 
 /-- the configuration half on its own, for every option list the visitor accepts without a diagnostic (every option a
 documented one with an allowed value), the raw-NUL spelling of the pad character excepted: `NewConfiguration` of the stored
@@ -236,6 +259,31 @@ theorem quoted_option_value (name eq t : Tok) (semi : Option Tok) (h : t.kind = 
 the written type in both readings -/
 example : agree true "MetaData M {\n u32 Sum,\n}\npacket P {\n u16 Sum @calculatedFrom(\"crc\"),\n}\n" = some true := by
   decide +kernel
+
+/-! ### Reference entries (`WFRefs`), and what stands in the way of `WFCalc`
+
+NOT extended to `WFCalc` (prefix `@calculatedFrom(..)` attributes): there the two readings DIFFER on three kinds of input, all
+accepted by the visitor without a diagnostic (kernel-evaluated below):
+(a) on a `string` / `char[]` field the visitor makes a checksum attribute of type `"string"` (no schema), `specOf` ignores the
+    attribute (a plain dynamic string);
+(b) on a checksum field that also has the inline attribute, the visitor keeps the PREFIX algorithm (the prefix attribute is
+    applied after the declaration), `specOf` the inline one;
+(c) on a field of a MetaData `char[n]` type the visitor again makes a checksum of type `"string"`, `specOf` keeps `char[n]`.
+On scalar fields (typed, or of a scalar MetaData type, one or several prefix attributes) they agree. -/
+
+/-- reference entries, also to a `zchar[n]` entry and through another reference; a repeated field and a checksum field typed
+by reference entries -/
+example : agree true "MetaData M {\n zchar[4] Z,\n u16 T,\n Z Z2,\n T Sum,\n Z2 Z3,\n}\npacket P {\n Z2,\n repeat T ts,\n Z3 z,\n Sum @calculatedFrom(\"x\"),\n}\n" =
+    some true := by decide +kernel
+
+/-- prefix `@calculatedFrom` on scalar fields: agreed on -/
+example : agree true "MetaData M {\n u32 C,\n}\npacket P {\n @calculatedFrom(\"A\") C,\n @calculatedFrom(\"A\") @calculatedFrom(\"B\") uint16 y,\n}\n" =
+    some true := by decide +kernel
+
+/-- (a), (b), (c): not agreed on -/
+example : agree true "packet P {\n @calculatedFrom(\"A\") string s,\n}\n" = some false ∧
+    agree true "packet P {\n @calculatedFrom(\"A\") u16 x @calculatedFrom(\"B\"),\n}\n" = some false ∧
+    agree true "MetaData M {\n char[4] C,\n}\npacket P {\n @calculatedFrom(\"A\") C,\n}\n" = some false := by decide +kernel
 
 /-! ## T1: alias table and option defaults of the models are those of `model.go` as it stands now
 
